@@ -522,9 +522,29 @@ impl Server {
                 };
                 self.notify_list_push(wakeup.db, &wakeup.key, 1);
             }
+        } else {
+            // Somebody else took the element before this client's turn came. Its registrations were
+            // dropped when it was picked, so it goes back to waiting on all of its keys with its
+            // original deadline - otherwise it would neither be served nor time out. A key of its
+            // that holds an element by now is announced again straight away
+            let waiting = self.connections.with_connection(wakeup.conn_id, |conn| {
+                match &conn.state {
+                    ConnectionState::Blocked(state) => Some(state.clone()),
+                    _ => None,
+                }
+            }).flatten();
+            
+            if let Some(state) = waiting {
+                let keys: Vec<Vec<u8>> = state.keys.iter().map(|(_, key)| key.clone()).collect();
+                self.blocking_manager.register_blocked(wakeup.db, wakeup.conn_id, keys.clone(), state.op_type, state.deadline)?;
+                for key in &keys {
+                    if self.storage.llen(wakeup.db, key).unwrap_or(0) > 0 {
+                        self.notify_list_push(wakeup.db, key, 1);
+                        break;
+                    }
+                }
+            }
         }
-        // If value is None (list was empty), the client should be timed out normally
-        // This is correct behavior - multiple wake-ups for same item result in only one getting data
         
         Ok(())
     }
